@@ -5157,6 +5157,16 @@ set_trait_post_setattr(trait_object *trait, PyObject *value, void *closure)
         return -1;
     }
 
+    if (trait->setattr == setattr_validate_property) {
+        /* A property with a validator keeps its 'set' function in the
+           post_setattr slot: it cannot hold a post_setattr callable too. */
+        PyErr_SetString(
+            PyExc_ValueError,
+            "The post_setattr of a property trait that has a validator "
+            "cannot be changed.");
+        return -1;
+    }
+
     if (value == Py_None) {
         value = NULL;
         trait->post_setattr = NULL;
